@@ -72,9 +72,9 @@ type mctx struct {
 
 func (m *mctx) send(b []byte) error {
 	if m.c != nil {
-		return m.c.Send(b)
+		return kit.SendBytes(m.c, b)
 	}
-	return m.s.Send(b)
+	return kit.SendBytes(m.s, b)
 }
 
 func (m *mctx) recvCall() ([]byte, error) {
